@@ -53,19 +53,18 @@ theorem longitudinal_eq_longitudinalW_diag (i : List Bool) (h : Rat) : longitudi
 def clusterEdges (s : IsingSpec) : List (List Nat × Rat) := s.edges.map fun e => ([e.1, e.2.1], e.2.2)
 
 /-- bond by bond, the Hamiltonian of the whole-step model / of C06/C07 (`IsingSpec.ham`) and the Hamiltonian of
-C09 and of `Kernel.ising_timestep_invariant` (`isingClusterHam`) have the same variables and constant flags for
-EVERY bond index, the same matrix elements on every two-site and transverse bond, and the same DIAGONAL matrix
-elements on every longitudinal bond (see `longitudinal_ne_longitudinalW_offdiag` for the rest). Bond counts:
-`IsingSpec.ham` has the code's `edges + nvars (+ nvars if h ≠ 0)`, `isingClusterHam` always `edges + 2·nvars`
-(for `h = 0` the extra bonds have weight `|0| ± 0 = 0`). -/
+C09 and of `Kernel.ising_timestep_invariant` (`isingClusterHam`) have the same variables, constant flags and
+**matrix elements for EVERY bond index and every pair of leg values** (two-site, transverse and — since Cluster.lean's
+`longitudinalW` was brought in line with the fix 9464564 — longitudinal bonds, off the diagonal too). Only the bond
+counts differ for `h = 0`: `IsingSpec.ham` has the code's `edges + nvars (+ nvars if h ≠ 0)`, `isingClusterHam` always
+`edges + 2·nvars` (for `h = 0` the extra bonds have weight `|0| ± 0 = 0`). -/
 theorem isingSpec_ham_fields (s : IsingSpec) :
     let H' := isingClusterHam (clusterEdges s) s.gamma s.h s.nvars
     (∀ b, s.ham.vars b = H'.vars b) ∧ (∀ b, s.ham.const b = H'.const b) ∧
-    (∀ b i o, b < s.nedges + s.nvars → s.ham.w b i o = H'.w b i o) ∧
-    (∀ b i, s.ham.w b i i = H'.w b i i) ∧
+    (∀ b i o, s.ham.w b i o = H'.w b i o) ∧
     (s.h ≠ 0 → s.ham.nbonds = H'.nbonds) := by
   have hl : (clusterEdges s).length = s.nedges := by simp [clusterEdges, IsingSpec.nedges]
-  refine ⟨?_, ?_, ?_, ?_, ?_⟩
+  refine ⟨?_, ?_, ?_, ?_⟩
   · intro b
     simp only [IsingSpec.ham, isingClusterHam, hl]
     by_cases h1 : b < s.nedges
@@ -73,22 +72,34 @@ theorem isingSpec_ham_fields (s : IsingSpec) :
       simp [h1, IsingSpec.edgeVars, clusterEdges, List.getElem?_eq_getElem h1']
     · simp [h1]
   · intro b; simp only [IsingSpec.ham, isingClusterHam, hl]
-  · intro b i o hb
-    simp only [IsingSpec.ham, isingClusterHam, hl]
-    by_cases h1 : b < s.nedges
-    · have h1' : b < s.edges.length := h1
-      simp [h1, IsingSpec.J, clusterEdges, List.getElem?_eq_getElem h1', twoSite_eq_twoSiteW]
-    · simp [h1, hb, transverseW]
-  · intro b i
+  · intro b i o
     simp only [IsingSpec.ham, isingClusterHam, hl]
     by_cases h1 : b < s.nedges
     · have h1' : b < s.edges.length := h1
       simp [h1, IsingSpec.J, clusterEdges, List.getElem?_eq_getElem h1', twoSite_eq_twoSiteW]
     · by_cases h2 : b < s.nedges + s.nvars
       · simp [h1, h2, transverseW]
-      · simp [h1, h2, longitudinal_eq_longitudinalW_diag]
+      · simp [h1, h2, longitudinal_eq_longitudinalW]
   · intro h0
     simp only [IsingSpec.ham, isingClusterHam, hl, if_neg h0]; omega
+
+/-- … hence, when `h ≠ 0`, the two Hamiltonians are equal as structures -/
+theorem isingSpec_ham_eq (s : IsingSpec) (h0 : s.h ≠ 0) :
+    s.ham = isingClusterHam (clusterEdges s) s.gamma s.h s.nvars := by
+  obtain ⟨h1, h2, h3, h4⟩ := isingSpec_ham_fields s
+  have e1 : s.ham.vars = (isingClusterHam (clusterEdges s) s.gamma s.h s.nvars).vars := funext h1
+  have e2 : s.ham.const = (isingClusterHam (clusterEdges s) s.gamma s.h s.nvars).const := funext h2
+  have e3 : s.ham.w = (isingClusterHam (clusterEdges s) s.gamma s.h s.nvars).w :=
+    funext fun b => funext fun i => funext fun o => h3 b i o
+  have e4 := h4 h0
+  cases hH : s.ham with
+  | mk nb vs cs w =>
+    cases hH' : isingClusterHam (clusterEdges s) s.gamma s.h s.nvars with
+    | mk nb' vs' cs' w' =>
+      rw [hH, hH'] at e1 e2 e3 e4
+      simp only at e1 e2 e3 e4
+      subst e1 e2 e3 e4
+      rfl
 
 /-- C07's well-formedness of a Hamiltonian is the kernel theorems' `VarsOK` -/
 theorem hamWF_iff_varsOK (H : Ham) (n : Nat) : HamWF H n ↔ Kernel.VarsOK H n := Iff.rfl
